@@ -23,6 +23,8 @@ ALMOST = ["{'a':1, }", "{'a':1 }", "{'x': k=9, }", "{'a':1,\n}", "[1,2, ]", "[1 
 MORE_TAILS += [pre + a for a in ALMOST for pre in (";", "\n", " + ", " ")]
 # carriage returns before an unparsable tail belong to RestInput like any other blank
 MORE_TAILS += ["\r\n（攻击）", "\r", " \r", "\r\n#check", "\r\n x y", "\t\r\n\r\n)", " \r\n \r\n理由", "\x0b", "\x0c", "\u00a0x", "\u3000"]
+# white space only, up to the very end of the input
+MORE_TAILS += [" ", "  ", "\t", "\n", "\r\n", " \n ", "\n\n", " \t \r\n"]
 ALL_TAILS = TAILS + MORE_TAILS
 
 
@@ -38,6 +40,9 @@ def main(tier):
         widen = 3 if fp else 1
         CF = ["-", "wcfd", "w", "c", "f", "d", "S", "N", "B", "wcfd,S,N,B"]
         cases = []  # (prior, src bytes, cfg)
+        for s in ["2d(6)", "3d(4)k(2)", "b(2)", "p(1)", "2a(10)", "(2)d(6)", "1 + 2d(6)", "x = 2d(3+3)", "d(20)", "2d6max(3)", "3c(8)", "(1+1)d(2+4)"]:
+            for t in [" ", "  ", "\t", "\n", "\r\n", " \n ", "", " reason", "\n理由"]:
+                cases.append(("", (s + t).encode("utf-8"), "wcfd"))
         for s in STRUCT:
             for t in r.sample(ALL_TAILS, 5 * widen):
                 cases.append(("", (s + t).encode("utf-8", "replace"), r.choice(CF)))
